@@ -83,6 +83,9 @@ theorem crates_step (ops : FOps) (s : Schema2) {L : Lib2} (h : LibCore s L) (c :
       · rw [m2_bind_pure_fst]
         exact crateCall_crates L _ (by simpa [crateMem, Call.admissible] using ha)
       · rfl
+    case plantPrepare t =>
+      simp only [crateOpOf, step]
+      split <;> rfl
     case createTrack x =>
       have hv := trackCall_view h ops (.create x) (fun id e => by cases e)
       have e1 : (step ops s L (.createTrack x)).1 = (trackCall ops s (.create x) L).1 := by
@@ -228,6 +231,9 @@ theorem tdb_step (ops : FOps) (s : Schema2) (L : Lib2) (c : Call) :
       split
       · rw [m2_bind_pure_fst]; rfl
       · rfl
+    case plantPrepare t =>
+      simp only [trackOpOf, step]
+      split <;> rfl
     case createTrack x => simp only [step, trackOpOf]; rw [m2_bind_pure_fst]; exact trackCall_tdb ..
     case trackUpdate t x => simp only [step, trackOpOf]; rw [m2_bind_pure_fst]; exact trackCall_tdb ..
     case trackSet t σ => simp only [step, trackOpOf]; rw [m2_bind_pure_fst]; exact trackCall_tdb ..
